@@ -29,3 +29,516 @@ Proof.
   intros H w Hw. rewrite forallb_forall in H. specialize (H w Hw).
   unfold ok_wrapper in H. destruct (wrapper_issues w); [reflexivity | discriminate].
 Qed.
+
+(* ---------------------------------------------------------------- put / get on paths *)
+Lemma find_first_upd_same k f l :
+  find_first k (upd_first k f l) = Some (f (match find_first k l with Some c => c | None => empty_ptree end)).
+Proof.
+  induction l as [|[k' c] l IH]; simpl.
+  - rewrite String.eqb_refl. reflexivity.
+  - destruct (String.eqb k' k) eqn:E; simpl; rewrite E; [reflexivity | exact IH].
+Qed.
+
+Lemma find_first_upd_other k k' f l : k <> k' -> find_first k' (upd_first k f l) = find_first k' l.
+Proof.
+  intros Hne. induction l as [|[k2 c] l IH]; simpl.
+  - destruct (String.eqb k k') eqn:E; [apply String.eqb_eq in E; contradiction | reflexivity].
+  - destruct (String.eqb k2 k) eqn:E; simpl.
+    + apply String.eqb_eq in E. subst k2.
+      destruct (String.eqb k k') eqn:E2; [apply String.eqb_eq in E2; contradiction | reflexivity].
+    + destruct (String.eqb k2 k'); [reflexivity | exact IH].
+Qed.
+
+Lemma find_first_app_other {A} k k' (x : A) l : k <> k' -> find_first k' (l ++ [(k, x)]) = find_first k' l.
+Proof.
+  intros Hne. induction l as [|[k2 c] l IH]; simpl.
+  - destruct (String.eqb k k') eqn:E; [apply String.eqb_eq in E; contradiction | reflexivity].
+  - destruct (String.eqb k2 k'); [reflexivity | exact IH].
+Qed.
+
+Lemma find_first_app_new {A} k (x : A) l : find_first k l = None -> find_first k (l ++ [(k, x)]) = Some x.
+Proof.
+  induction l as [|[k2 c] l IH]; simpl; intros H.
+  - rewrite String.eqb_refl. reflexivity.
+  - destruct (String.eqb k2 k); [discriminate | exact (IH H)].
+Qed.
+
+Lemma get_child_put_same k ks v t :
+  get_child_opt k (put_path (k :: ks) v t) = Some (put_path ks v (get_child k t)).
+Proof. unfold get_child_opt, get_child, get_child_opt. simpl. apply find_first_upd_same. Qed.
+
+Lemma get_child_put_other k k' ks v t : k <> k' ->
+  get_child_opt k' (put_path (k :: ks) v t) = get_child_opt k' t.
+Proof. intros H. unfold get_child_opt. simpl. apply find_first_upd_other. exact H. Qed.
+
+(* a value put on a path is what a get on the same path returns *)
+Lemma get_put_same ks v t : exists n, get_path ks (put_path ks v t) = Some n /\ pdata n = v.
+Proof.
+  revert t. induction ks as [|k ks IH]; intros t.
+  - exists (Node v (pkids t)). split; reflexivity.
+  - cbn [get_path]. rewrite get_child_put_same. apply IH.
+Qed.
+
+(* ... and it leaves the data on every other existing path alone *)
+Lemma get_put_other p : forall q v t n, get_path p t = Some n -> p <> q ->
+  exists n', get_path p (put_path q v t) = Some n' /\ pdata n' = pdata n.
+Proof.
+  induction p as [|a p IH]; intros q v t n Hg Hne.
+  - simpl in Hg. injection Hg as <-. destruct q as [|b q]; [contradiction|].
+    eexists. split; [reflexivity | reflexivity].
+  - cbn [get_path] in Hg. destruct (get_child_opt a t) as [c|] eqn:Ec; [|discriminate].
+    destruct q as [|b q].
+    + exists n. split; [|reflexivity]. cbn [get_path]. unfold get_child_opt in *. simpl. rewrite Ec. exact Hg.
+    + destruct (String.eqb b a) eqn:E.
+      * apply String.eqb_eq in E. subst b. cbn [get_path]. rewrite get_child_put_same.
+        unfold get_child. rewrite Ec. apply (IH q v c n Hg). intros ->. apply Hne. reflexivity.
+      * apply String.eqb_neq in E. exists n. split; [|reflexivity].
+        cbn [get_path]. rewrite (get_child_put_other b a q v t E). rewrite Ec. exact Hg.
+Qed.
+
+(* ================================================================ C14-A1 *)
+(* ---- induction principle for the nested type desc ---- *)
+Section DescInd.
+  Variable P : desc -> Prop.
+  Hypothesis HV : forall ty d, P (DVal ty d).
+  Hypothesis HO : P DOpaque.
+  Hypothesis HS : forall imps exps chk,
+      Forall (fun e => P (snd e)) imps -> Forall (fun e => P (snd e)) exps -> P (DStruct imps exps chk).
+  Fixpoint desc_ind' (d : desc) : P d :=
+    match d with
+    | DVal ty dv => HV ty dv
+    | DOpaque => HO
+    | DStruct imps exps chk =>
+        HS imps exps chk
+          ((fix go (l : list (key * desc)) : Forall (fun e => P (snd e)) l :=
+              match l with
+              | [] => Forall_nil _
+              | e :: l' => Forall_cons e (match e as e0 return P (snd e0) with (k, dk) => desc_ind' dk end) (go l')
+              end) imps)
+          ((fix go (l : list (key * desc)) : Forall (fun e => P (snd e)) l :=
+              match l with
+              | [] => Forall_nil _
+              | e :: l' => Forall_cons e (match e as e0 return P (snd e0) with (k, dk) => desc_ind' dk end) (go l')
+              end) exps)
+    end.
+End DescInd.
+
+(* ---- the anonymous field loops of Ptree.v, named ---- *)
+Fixpoint import_fields (l : list (key * desc)) (t : ptree) : res (list (key * pval)) :=
+  match l with
+  | [] => Ok []
+  | (k, dk) :: l' =>
+      match import dk (get_child_opt k t) with
+      | Exc e => Exc e
+      | Ok v => match import_fields l' t with Exc e => Exc e | Ok vs => Ok ((k, v) :: vs) end
+      end
+  end.
+Lemma import_struct_eq imps exps chk c :
+  import (DStruct imps exps chk) c =
+  match import_fields imps (of_opt c) with Exc e => Exc e | Ok fs => Ok (VRec fs) end.
+Proof.
+  cbn [import].
+  match goal with |- match ?F imps with _ => _ end = _ =>
+    assert (E : forall l, F l = import_fields l (of_opt c)) end.
+  { induction l as [|[k dk] l IH]; [reflexivity|]. cbn. rewrite IH. reflexivity. }
+  rewrite E. reflexivity.
+Qed.
+
+Fixpoint export_fields (l : list (key * desc)) (fs : list (key * pval)) (path : list key) (p : ptree) : ptree :=
+  match l with
+  | [] => p
+  | (k, dk) :: l' => export_fields l' fs path (export dk (find_first k fs) (path ++ [k]) p)
+  end.
+Definition rec_fields (v : option pval) : list (key * pval) := match v with Some (VRec fs) => fs | _ => [] end.
+Lemma export_struct_eq imps exps chk v path p :
+  export (DStruct imps exps chk) v path p = export_fields exps (rec_fields v) path p.
+Proof.
+  cbn [export]. fold (rec_fields v).
+  match goal with |- ?F exps p = _ =>
+    assert (E : forall l q, F l q = export_fields l (rec_fields v) path q) end.
+  { induction l as [|[k dk] l IH]; intros q; [reflexivity|]. cbn. rewrite IH. reflexivity. }
+  apply E.
+Qed.
+
+Definition unknown_here (chk : list (list key)) (t : ptree) : list key :=
+  flat_map (fun names => filter (fun k => negb (mem k names)) (map fst (pkids t))) chk.
+Lemma unknowns_struct_incl imps exps chk c k :
+  In k (unknown_here chk (of_opt c)) -> In k (unknowns (DStruct imps exps chk) c).
+Proof. intros H. cbn [unknowns]. apply in_or_app. right. exact H. Qed.
+
+(* ---- exporting below key k does not touch the other children of the root ---- *)
+Lemma get_child_add_other k k' path obj p : k <> k' ->
+  get_child_opt k' (add_child_path (k :: path) obj p) = get_child_opt k' p.
+Proof.
+  intros Hne. unfold get_child_opt. destruct path as [|a path]; simpl.
+  - apply find_first_app_other. exact Hne.
+  - apply find_first_upd_other. exact Hne.
+Qed.
+
+Lemma export_preserves_other d : forall v path p k k', k <> k' ->
+  get_child_opt k' (export d v (k :: path) p) = get_child_opt k' p.
+Proof.
+  induction d as [ty dv | | imps exps chk _ IH] using desc_ind'; intros v path p k k' Hne.
+  - cbn [export]. apply get_child_put_other. exact Hne.
+  - cbn [export]. apply get_child_add_other. exact Hne.
+  - rewrite export_struct_eq. generalize (rec_fields v) as fs. intros fs. revert p.
+    induction IH as [|[kk dk] l Hd _ IHl]; intros p; [reflexivity|].
+    cbn [export_fields]. rewrite IHl. change ((k :: path) ++ [kk]) with (k :: (path ++ [kk])).
+    apply Hd. exact Hne.
+Qed.
+
+Lemma export_fields_preserves_other l fs p k' :
+  ~ In k' (map fst l) -> get_child_opt k' (export_fields l fs [] p) = get_child_opt k' p.
+Proof.
+  revert p. induction l as [|[k dk] l IH]; intros p Hn; [reflexivity|].
+  cbn [export_fields]. rewrite IH by (intros H; apply Hn; right; exact H).
+  apply export_preserves_other. intros ->. apply Hn. left. reflexivity.
+Qed.
+
+(* ---- exporting below key k = exporting into the child at k ---- *)
+Lemma get_child_is_of_opt k p : get_child k p = of_opt (get_child_opt k p).
+Proof. reflexivity. Qed.
+
+Lemma export_descend d : forall v path p k, (d = DOpaque -> path <> []) ->
+  of_opt (get_child_opt k (export d v (k :: path) p)) = export d v path (of_opt (get_child_opt k p)).
+Proof.
+  induction d as [ty dv | | imps exps chk _ IH] using desc_ind'; intros v path p k Hop.
+  - cbn [export]. rewrite get_child_put_same. reflexivity.
+  - cbn [export]. destruct path as [|a path]; [exfalso; apply Hop; reflexivity|].
+    unfold get_child_opt at 1. cbn [add_child_path pkids]. rewrite find_first_upd_same. reflexivity.
+  - clear Hop. rewrite !export_struct_eq. generalize (rec_fields v) as fs. intros fs. revert p.
+    induction IH as [|[kk dk] l Hd _ IHl]; intros p; [reflexivity|].
+    cbn [export_fields]. rewrite IHl. f_equal.
+    change ((k :: path) ++ [kk]) with (k :: (path ++ [kk])).
+    apply Hd. intros _ H. destruct path; discriminate.
+Qed.
+
+(* ---- well-formed descriptions: what C14-A2 establishes for every regular struct ---- *)
+Fixpoint wf_desc (d : desc) : Prop :=
+  match d with
+  | DVal TPlain _ => True
+  | DVal (TEnum names) dflt => mem dflt names = true        (* the default enumerator has a text *)
+  | DOpaque => True
+  | DStruct imps exps chk =>
+      (* same members with the same descriptions in both lists (any order), no duplicates *)
+      (forall e, In e exps <-> In e imps) /\ NoDup (map fst imps) /\ NoDup (map fst exps) /\
+      (forall names, In names chk -> forall k, In k (map fst imps) -> mem k names = true) /\
+      (fix all (l : list (key * desc)) : Prop :=
+         match l with [] => True | (k, dk) :: l' => wf_desc dk /\ all l' end) imps
+  end.
+Fixpoint all_wf (l : list (key * desc)) : Prop :=
+  match l with [] => True | (k, dk) :: l' => wf_desc dk /\ all_wf l' end.
+Lemma wf_struct_eq imps exps chk :
+  wf_desc (DStruct imps exps chk) <->
+  (forall e, In e exps <-> In e imps) /\ NoDup (map fst imps) /\ NoDup (map fst exps) /\
+  (forall names, In names chk -> forall k, In k (map fst imps) -> mem k names = true) /\ all_wf imps.
+Proof.
+  cbn [wf_desc].
+  assert (E : forall l, (fix all (l : list (key * desc)) : Prop :=
+         match l with [] => True | (k, dk) :: l' => wf_desc dk /\ all l' end) l <-> all_wf l).
+  { induction l as [|[k dk] l IH]; [reflexivity|]. cbn. rewrite IH. reflexivity. }
+  rewrite E. reflexivity.
+Qed.
+Lemma all_wf_in l k dk : all_wf l -> In (k, dk) l -> wf_desc dk.
+Proof.
+  induction l as [|[k' d'] l IH]; [intros _ []|]. intros [H1 H2] [H|H]; [injection H as -> ->; exact H1 | exact (IH H2 H)].
+Qed.
+
+(* ---- "the exported tree p carries, for every parameter of d, the value the input c had
+        (the default where c had none)" ---- *)
+Fixpoint agrees (d : desc) (c p : option ptree) : Prop :=
+  match d with
+  | DVal _ dflt => exists n, p = Some n /\ pdata n = match c with Some m => pdata m | None => dflt end
+  | DOpaque => p = Some (of_opt c)
+  | DStruct imps _ _ =>
+      (fix all (l : list (key * desc)) : Prop :=
+         match l with
+         | [] => True
+         | (k, dk) :: l' => agrees dk (get_child_opt k (of_opt c)) (get_child_opt k (of_opt p)) /\ all l'
+         end) imps
+  end.
+Fixpoint agrees_fields (l : list (key * desc)) (t q : ptree) : Prop :=
+  match l with
+  | [] => True
+  | (k, dk) :: l' => agrees dk (get_child_opt k t) (get_child_opt k q) /\ agrees_fields l' t q
+  end.
+Lemma agrees_struct_eq imps exps chk c p :
+  agrees (DStruct imps exps chk) c p <-> agrees_fields imps (of_opt c) (of_opt p).
+Proof.
+  cbn [agrees].
+  match goal with |- ?F imps <-> _ => assert (E : forall l, F l <-> agrees_fields l (of_opt c) (of_opt p)) end.
+  { induction l as [|[k dk] l IH]; [reflexivity|]. cbn. rewrite IH. reflexivity. }
+  apply E.
+Qed.
+Lemma agrees_fields_in l t q : agrees_fields l t q <->
+  (forall k dk, In (k, dk) l -> agrees dk (get_child_opt k t) (get_child_opt k q)).
+Proof.
+  induction l as [|[k dk] l IH]; cbn.
+  - split; [intros _ ? ? [] | trivial].
+  - rewrite IH. split.
+    + intros [H1 H2] k' dk' [H|H]; [injection H as <- <-; exact H1 | exact (H2 _ _ H)].
+    + intros H. split; [apply H; left; reflexivity | intros k' dk' Hin; apply H; right; exact Hin].
+Qed.
+
+Lemma import_fields_find l t fs : import_fields l t = Ok fs -> NoDup (map fst l) ->
+  forall k dk, In (k, dk) l -> exists vk, find_first k fs = Some vk /\ import dk (get_child_opt k t) = Ok vk.
+Proof.
+  revert fs. induction l as [|[k0 d0] l IH]; intros fs H Hnd k dk Hin; [destruct Hin|].
+  cbn in H. destruct (import d0 (get_child_opt k0 t)) as [v0|] eqn:E0; [|discriminate].
+  destruct (import_fields l t) as [vs|] eqn:El; [|discriminate]. injection H as <-.
+  inversion Hnd as [|? ? Hn Hd]; subst. destruct Hin as [Hin|Hin].
+  - injection Hin as -> ->. exists v0. split; [cbn; rewrite String.eqb_refl; reflexivity | exact E0].
+  - destruct (IH vs eq_refl Hd k dk Hin) as (vk & Hf & Hi). exists vk. split; [|exact Hi].
+    cbn. destruct (String.eqb k0 k) eqn:E; [|exact Hf].
+    apply String.eqb_eq in E. subst k0. exfalso. apply Hn. apply (in_map fst) in Hin. exact Hin.
+Qed.
+
+(* the round-trip statement for one description (only structs are exported at the root) *)
+Definition rt_ok (d : desc) : Prop :=
+  forall c v, import d c = Ok v ->
+    match d with DStruct _ _ _ => agrees d c (Some (export d (Some v) [] empty_ptree)) | _ => True end.
+
+(* one member exported into a tree that has no child of that name yet *)
+Lemma field_agrees dk : forall k ck vk p,
+  rt_ok dk -> import dk ck = Ok vk -> get_child_opt k p = None ->
+  agrees dk ck (get_child_opt k (export dk (Some vk) [k] p)).
+Proof.
+  destruct dk as [ty dflt | | imps exps chk]; intros k ck vk p HP Hi Hnone.
+  - (* value member *)
+    cbn [export]. rewrite get_child_put_same. cbn [agrees]. eexists. split; [reflexivity|].
+    cbn [put_path pdata]. cbn [import] in Hi. destruct ck as [m|].
+    + destruct ty as [|names]; [injection Hi as <-; reflexivity|].
+      destruct (mem (pdata m) names); [injection Hi as <-; reflexivity | discriminate].
+    + injection Hi as <-. reflexivity.
+  - (* ptree member *)
+    cbn [import] in Hi. injection Hi as <-. cbn [export agrees]. unfold get_child_opt in *.
+    cbn [add_child_path pkids]. rewrite (find_first_app_new k (of_opt ck) (pkids p) Hnone). reflexivity.
+  - (* params member *)
+    specialize (HP ck vk Hi). cbn beta iota in HP. rewrite agrees_struct_eq in *. cbn [of_opt] in HP.
+    rewrite (export_descend (DStruct imps exps chk) (Some vk) [] p k) by discriminate.
+    rewrite Hnone. exact HP.
+Qed.
+
+Lemma fields_agree t fs : forall l p,
+  NoDup (map fst l) ->
+  (forall k dk, In (k, dk) l -> get_child_opt k p = None) ->
+  (forall k dk, In (k, dk) l -> exists vk, find_first k fs = Some vk /\ import dk (get_child_opt k t) = Ok vk) ->
+  Forall (fun e => rt_ok (snd e)) l ->
+  agrees_fields l t (export_fields l fs [] p).
+Proof.
+  induction l as [|[k dk] l IH]; intros p Hnd Hnone Hfs HP; [exact I|].
+  inversion Hnd as [|? ? Hn Hd]; subst. inversion HP as [|? ? HPk HPl]; subst. cbn [snd] in HPk.
+  cbn [export_fields agrees_fields app]. split.
+  - rewrite export_fields_preserves_other by exact Hn.
+    destruct (Hfs k dk (or_introl eq_refl)) as (vk & Hf & Hi). rewrite Hf.
+    apply field_agrees; [exact HPk | exact Hi | exact (Hnone k dk (or_introl eq_refl))].
+  - apply IH; [exact Hd | | intros k' dk' Hin; apply (Hfs k' dk'); right; exact Hin | exact HPl].
+    intros k' dk' Hin. rewrite export_preserves_other.
+    + apply (Hnone k' dk'). right. exact Hin.
+    + intros ->. apply Hn. apply (in_map fst) in Hin. exact Hin.
+Qed.
+
+(* C14-A1, core: for a well-formed description, the tree exported from the imported object
+   agrees with the input on every parameter, at every nesting depth *)
+Theorem export_import_agrees d : wf_desc d -> rt_ok d.
+Proof.
+  induction d as [ty dv | | imps exps chk IHi _] using desc_ind'; intros Hwf c v Hi; [exact I | exact I |].
+  apply wf_struct_eq in Hwf. destruct Hwf as (Hsame & Hnd & Hnde & _ & Hall).
+  rewrite import_struct_eq in Hi. destruct (import_fields imps (of_opt c)) as [fs|] eqn:Ef; [|discriminate].
+  injection Hi as <-. rewrite agrees_struct_eq, export_struct_eq. cbn [of_opt rec_fields].
+  assert (Hrt : forall k dk, In (k, dk) imps -> rt_ok dk).
+  { clear -IHi Hall. induction IHi as [|[k0 d0] l Hd _ IHl]; [intros ? ? []|].
+    destruct Hall as [Hw Hall]. intros k dk [H|H]; [injection H as <- <-; exact (Hd Hw) | exact (IHl Hall k dk H)]. }
+  apply agrees_fields_in. intros k dk Hin.
+  assert (Hex : agrees_fields exps (of_opt c) (export_fields exps fs [] empty_ptree)).
+  { apply fields_agree.
+    - exact Hnde.
+    - intros k' dk' _. reflexivity.
+    - intros k' dk' Hin'. apply (import_fields_find imps (of_opt c) fs Ef Hnd). apply Hsame. exact Hin'.
+    - apply Forall_forall. intros [k' dk'] Hin'. apply (Hrt k' dk'). apply Hsame. exact Hin'. }
+  rewrite agrees_fields_in in Hex. apply Hex. apply Hsame. exact Hin.
+Qed.
+
+(* ---- consequences ---- *)
+(* (a) importing the exported tree gives the same object: import . export . import = import *)
+Lemma agrees_import d : wf_desc d -> forall c p, agrees d c p -> import d p = import d c.
+Proof.
+  induction d as [ty dflt | | imps exps chk IHi _] using desc_ind'; intros Hwf c p Hag.
+  - cbn [agrees] in Hag. destruct Hag as (n & -> & Hn). cbn [import]. destruct c as [m|].
+    + rewrite Hn. reflexivity.
+    + rewrite Hn. destruct ty as [|names]; [reflexivity|]. cbn [wf_desc] in Hwf. rewrite Hwf. reflexivity.
+  - cbn [agrees] in Hag. subst p. reflexivity.
+  - apply wf_struct_eq in Hwf. destruct Hwf as (_ & _ & _ & _ & Hall).
+    rewrite agrees_struct_eq in Hag. rewrite !import_struct_eq.
+    assert (E : import_fields imps (of_opt p) = import_fields imps (of_opt c)); [|rewrite E; reflexivity].
+    revert Hag Hall. generalize (of_opt c) as t. generalize (of_opt p) as q. intros q t.
+    induction IHi as [|[k dk] l Hd _ IHl]; intros Hag Hall; [reflexivity|].
+    cbn [agrees_fields] in Hag. destruct Hag as [Hk Hl]. destruct Hall as [Hw Hall]. cbn [import_fields].
+    cbn [snd] in Hd. rewrite (Hd Hw _ _ Hk), (IHl Hl Hall). reflexivity.
+Qed.
+
+Theorem import_export_import imps exps chk t v :
+  let d := DStruct imps exps chk in
+  wf_desc d -> import d (Some t) = Ok v -> import d (Some (export_top d v)) = Ok v.
+Proof.
+  intros d Hwf Hi. rewrite <- Hi. apply (agrees_import d Hwf).
+  exact (export_import_agrees d Hwf (Some t) v Hi).
+Qed.
+
+(* (b) export . import is the identity on the value parameters that are present, and gives the
+       default for the absent ones -- first level ... *)
+Lemma agrees_value imps exps chk t q k ty dflt x :
+  agrees (DStruct imps exps chk) (Some t) (Some q) -> In (k, DVal ty dflt) imps ->
+  get_value k x q = get_value k dflt t.
+Proof.
+  intros Hag Hin. rewrite agrees_struct_eq, agrees_fields_in in Hag. specialize (Hag k _ Hin).
+  cbn [agrees of_opt] in Hag. destruct Hag as (n & Hn & Hd). unfold get_value. rewrite Hn, Hd. reflexivity.
+Qed.
+(* ... and at any depth: agreement descends into the params members *)
+Lemma agrees_child imps exps chk t q k i e ch :
+  agrees (DStruct imps exps chk) (Some t) (Some q) -> In (k, DStruct i e ch) imps ->
+  agrees (DStruct i e ch) (Some (get_child k t)) (Some (get_child k q)).
+Proof.
+  intros Hag Hin. rewrite agrees_struct_eq, agrees_fields_in in Hag. specialize (Hag k _ Hin).
+  cbn [of_opt] in Hag. rewrite agrees_struct_eq in *. exact Hag.
+Qed.
+(* a ptree-typed member (run-time wrapper parameters) is written back verbatim *)
+Lemma agrees_opaque imps exps chk t q k :
+  agrees (DStruct imps exps chk) (Some t) (Some q) -> In (k, DOpaque) imps ->
+  get_child_opt k q = Some (get_child k t).
+Proof.
+  intros Hag Hin. rewrite agrees_struct_eq, agrees_fields_in in Hag. exact (Hag k _ Hin).
+Qed.
+
+(* (c) unknown keys: every key of the tree that some check_params call does not list is handed
+       to the hook; a member name of a well-formed struct is never reported by its own check *)
+Lemma unknown_reported imps exps chk t k names :
+  In k (map fst (pkids t)) -> In names chk -> mem k names = false ->
+  In k (unknowns (DStruct imps exps chk) (Some t)).
+Proof.
+  intros Hk Hn Hm. apply unknowns_struct_incl. unfold unknown_here. apply in_flat_map.
+  exists names. split; [exact Hn|]. apply filter_In. split; [exact Hk | rewrite Hm; reflexivity].
+Qed.
+Lemma member_not_reported imps exps chk t k :
+  wf_desc (DStruct imps exps chk) -> In k (map fst imps) -> ~ In k (unknown_here chk t).
+Proof.
+  intros Hwf Hk Hin. apply wf_struct_eq in Hwf. destruct Hwf as (_ & _ & _ & Hchk & _).
+  unfold unknown_here in Hin. apply in_flat_map in Hin. destruct Hin as (names & Hn & Hf).
+  apply filter_In in Hf. destruct Hf as [_ Hf]. rewrite (Hchk names Hn k Hk) in Hf. discriminate.
+Qed.
+
+(* (d) enumerations: a text outside the operator>> table raises, a text inside is accepted *)
+Lemma enum_invalid names dflt n :
+  mem (pdata n) names = false -> import (DVal (TEnum names) dflt) (Some n) = Exc "invalid_argument".
+Proof. intros H. cbn [import]. rewrite H. reflexivity. Qed.
+Lemma enum_valid names dflt n :
+  mem (pdata n) names = true -> import (DVal (TEnum names) dflt) (Some n) = Ok (VVal (pdata n)).
+Proof. intros H. cbn [import]. rewrite H. reflexivity. Qed.
+(* ... and it propagates out of any struct that has the member *)
+Lemma import_fields_exc l t k dk e :
+  NoDup (map fst l) -> In (k, dk) l -> import dk (get_child_opt k t) = Exc e ->
+  exists e', import_fields l t = Exc e'.
+Proof.
+  induction l as [|[k0 d0] l IH]; intros Hnd Hin He; [destruct Hin|].
+  inversion Hnd as [|? ? Hn Hd]; subst. cbn [import_fields]. destruct Hin as [Hin|Hin].
+  - injection Hin as -> ->. rewrite He. eauto.
+  - destruct (import d0 (get_child_opt k0 t)); [|eauto].
+    destruct (IH Hd Hin He) as [e' ->]. eauto.
+Qed.
+
+(* ---------------------------------------------------------------- C14-A3: run-time dispatch *)
+Lemma runtime_wrapper_is_match (Tag A : Type) parse show dflt tagkey (component : Tag -> ptree -> A) prm tg :
+  parse (get_value tagkey (show dflt) prm) = Some tg ->
+  runtime_wrapper Tag A parse show dflt tagkey component prm = Ok (component tg (erase tagkey prm)).
+Proof. intros H. unfold runtime_wrapper. rewrite H. reflexivity. Qed.
+Lemma runtime_wrapper_invalid (Tag A : Type) parse show dflt tagkey (component : Tag -> ptree -> A) prm :
+  parse (get_value tagkey (show dflt) prm) = None ->
+  runtime_wrapper Tag A parse show dflt tagkey component prm = Exc "invalid_argument".
+Proof. intros H. unfold runtime_wrapper. rewrite H. reflexivity. Qed.
+(* the dispatch key is consumed: the component does not see it (so it is not an unknown key) *)
+Lemma erase_removes k t : get_child_opt k (erase k t) = None.
+Proof.
+  unfold get_child_opt, erase. cbn [pkids]. induction (pkids t) as [|[k' c] l IH]; [reflexivity|].
+  cbn [filter fst]. destruct (String.eqb k' k) eqn:E; cbn [negb]; [exact IH|]. cbn [find_first]. rewrite E. exact IH.
+Qed.
+Lemma erase_keeps k k' t : k <> k' -> get_child_opt k' (erase k t) = get_child_opt k' t.
+Proof.
+  intros Hne. unfold get_child_opt, erase. cbn [pkids]. induction (pkids t) as [|[k2 c] l IH]; [reflexivity|].
+  cbn [filter fst]. destruct (String.eqb k2 k) eqn:E; cbn [negb find_first].
+  - apply String.eqb_eq in E. subst k2. destruct (String.eqb k k') eqn:E2; [apply String.eqb_eq in E2; contradiction | exact IH].
+  - destruct (String.eqb k2 k'); [reflexivity | exact IH].
+Qed.
+
+(* ================================================================ from C14-A2 to C14-A1:
+   descriptions resolved from a table of regular structs are well formed *)
+Lemma mem_In x l : mem x l = true <-> In x l.
+Proof.
+  induction l as [|y l IH]; cbn; [split; [discriminate | intros []]|].
+  destruct (String.eqb x y) eqn:E.
+  - apply String.eqb_eq in E. subst. split; auto.
+  - apply String.eqb_neq in E. rewrite IH. split; [auto | intros [H|H]; [congruence | exact H]].
+Qed.
+Lemma kind_eqb_eq a b : kind_eqb a b = true -> a = b.
+Proof. destruct a, b; (reflexivity || discriminate). Qed.
+Lemma nk_mem_In x l : nk_mem x l = true -> In x l.
+Proof.
+  unfold nk_mem. intros H. apply existsb_exists in H. destruct H as ([n k] & Hin & H).
+  apply andb_prop in H. destruct H as [H1 H2]. apply String.eqb_eq in H1. apply kind_eqb_eq in H2.
+  cbn in *. destruct x as [xn xk]. cbn in *. subst. exact Hin.
+Qed.
+Lemma nodupb_NoDup l : nodupb l = true -> NoDup l.
+Proof.
+  induction l as [|x l IH]; cbn; [constructor|]. intros H. apply andb_prop in H. destruct H as [H1 H2].
+  constructor; [|exact (IH H2)]. intros Hin. apply mem_In in Hin. rewrite Hin in H1. discriminate.
+Qed.
+Lemma subsetb_In a b : subsetb a b = true -> forall x, In x a -> mem x b = true.
+Proof. unfold subsetb. intros H x Hx. rewrite forallb_forall in H. exact (H x Hx). Qed.
+
+Lemma wf_empty_struct chk : wf_desc (DStruct [] [] chk).
+Proof.
+  apply wf_struct_eq. split; [intros e; tauto|]. split; [constructor|]. split; [constructor|].
+  split; [intros names _ k [] | exact I].
+Qed.
+
+Section ResolveWf.
+  Variable tbl : list struct_desc.
+  Variable bind : list key -> option string.
+  Variable dflt : list key -> string.
+  Variable ety : list key -> vty.
+  Hypothesis Hreg : forall s, In s tbl -> regularb s = true.
+  (* the default enumerator of an enumeration-typed member has a text in the table
+     (for the real enums: C14_A2_every_wrapper_ok, "operator>> parses what operator<< prints") *)
+  Hypothesis Hety : forall p, match ety p with TEnum names => mem (dflt p) names = true | TPlain => True end.
+
+  Lemma find_struct_In id s : find_struct id tbl = Some s -> In s tbl.
+  Proof. unfold find_struct. intros H. apply find_some in H. exact (proj1 H). Qed.
+
+  Lemma resolve_wf fuel : forall path id, wf_desc (resolve tbl bind dflt ety fuel path id).
+  Proof.
+    induction fuel as [|f IH]; intros path id; cbn [resolve].
+    - apply wf_empty_struct.
+    - destruct (find_struct id tbl) as [s|] eqn:Es; [|apply wf_empty_struct].
+      pose proof (Hreg s (find_struct_In id s Es)) as R. unfold regularb in R.
+      apply andb_prop in R. destruct R as [R HG]. apply andb_prop in R. destruct R as [R HF].
+      apply andb_prop in R. destruct R as [R HE]. apply andb_prop in R. destruct R as [R HD].
+      apply andb_prop in R. destruct R as [R HC]. apply andb_prop in R. destruct R as [HA HB].
+      match goal with |- wf_desc (DStruct (map ?F _) _ _) => set (fld := F) end.
+      assert (Hfst : forall l, map fst (map fld l) = map fst l).
+      { induction l as [|e l IHl]; [reflexivity|]. cbn. rewrite IHl. reflexivity. }
+      apply wf_struct_eq. split; [|split; [|split; [|split]]].
+      + intros e. rewrite !in_map_iff. split; intros (x & <- & Hx); exists x; (split; [reflexivity|]).
+        * rewrite forallb_forall in HB. apply nk_mem_In. exact (HB x Hx).
+        * rewrite forallb_forall in HA. apply nk_mem_In. exact (HA x Hx).
+      + rewrite Hfst. apply nodupb_NoDup. assumption.
+      + rewrite Hfst. apply nodupb_NoDup. assumption.
+      + intros names Hn k Hk. rewrite Hfst in Hk. rewrite forallb_forall in HD.
+        exact (subsetb_In _ _ (HD names Hn) k Hk).
+      + clear -IH Hety. induction (sd_imports s) as [|e l IHl]; [exact I|]. cbn [map all_wf].
+        destruct e as [n k]. unfold fld at 1. cbn [fst snd]. split; [|exact IHl].
+        destruct k.
+        * cbn [wf_desc]. specialize (Hety (path ++ [n])). destruct (ety (path ++ [n])); [exact I | exact Hety].
+        * destruct (bind (path ++ [n])) as [cid|].
+          -- destruct (String.eqb cid "@opaque"); [exact I | apply IH].
+          -- apply wf_empty_struct.
+  Qed.
+End ResolveWf.
